@@ -63,6 +63,7 @@ def eval_function(repo, modname, qual, arg_terms=None, inline_depth=3, refine_gu
     cls = qual.split(".")[0] if "." in qual and "<locals>" not in qual.split(".")[1:2] and qual.split(".")[0] in repo.mod(modname).classes else None
     ctx = Ctx(repo, modname, cls, inline_depth)
     ctx.refine_guards = refine_guards
+    ctx.root_tgt, ctx.rec_depth = "%s.%s" % (modname, qual), 0
     if unroll:
         ctx.unroll = max(ctx.unroll, unroll)
         ctx.unroll_while = unroll
@@ -1057,6 +1058,8 @@ def ev_call(ctx, node, env):
                 return a
             return T.call("float", a)
         if name == "int":
+            if len(args) == 1 and args[0][0] == "num":
+                return T.num(Fraction(int(args[0][1])))          # int() of a literal
             return T.call("int", numval(args[0]))
         if name == "round":
             return T.call("round", *[numval(a) for a in args])
@@ -1082,6 +1085,10 @@ def ev_call(ctx, node, env):
             return ("list",) + tuple(sorted(args[0][1:], key=lambda x: x[1]))
         if name == "len" and len(args) == 1 and args[0][0] in ("tuple", "list"):
             return T.num(len(args[0]) - 1)
+        if name == "len" and len(args) == 1 and args[0][0] == "str":
+            return T.num(len(args[0][1]))
+        if name == "int" and len(args) == 1 and args[0][0] == "num" and not kws:
+            return T.num(Fraction(int(args[0][1])))
         if name in BUILTINS or name in MATH_FUNCS:
             return T.call(name, *args)
         # module function / imported function
@@ -1099,8 +1106,11 @@ def ev_call(ctx, node, env):
                     return T.call("red", *args)
                 return repo_call(ctx, tgt + "." + meth, args, kws, star_kw, env)
         recv = ev(ctx, f.value, env)
+        if recv[0] == "str" and not kws and meth in ("strip", "lstrip", "rstrip", "capitalize", "lower", "upper", "title") \
+                and all(a_[0] == "str" for a_ in args) and len(args) <= 1:
+            return ("str", getattr(recv[1], meth)(*[a_[1] for a_ in args]))       # pure method of a literal string
         if recv[0] in ("list", "tuple") and meth == "index" and len(args) == 1 and args[0] in recv[1:] \
-                and all(x[0] in ("num", "sym") for x in recv[1:]):
+                and all(x[0] in ("num", "sym", "str") for x in recv[1:]) and (args[0][0] != "str" or all(x[0] == "str" for x in recv[1:])):
             return T.num(recv[1:].index(args[0]))          # position in a literal list of distinct atoms
         if recv[0] == "dict" and meth in ("keys", "values") and not args:
             return ("list",) + tuple((k if meth == "keys" else v) for k, v in recv[1])
@@ -1301,6 +1311,8 @@ def new_helper(ctx, tgt):
         return None
     inv = inventory().get(mod)
     if inv is not None and qual in inv["functions"]:
+        if tgt == getattr(ctx, "root_tgt", None) and getattr(ctx, "rec_depth", 0) < 1:
+            return m.functions[qual]          # the analysed function calling itself (e.g. set((x,)) -> set(x)): one level is unfolded
         return None
     return m.functions[qual]
 
@@ -1315,6 +1327,8 @@ def inline_repo(ctx, tgt, fn, args, kws, star_kw, env):
     sub.unroll, sub.unroll_while = ctx.unroll, getattr(ctx, "unroll_while", 0)
     sub.refine_guards = getattr(ctx, "refine_guards", True)
     sub.pending_raises = []
+    sub.root_tgt = getattr(ctx, "root_tgt", None)
+    sub.rec_depth = getattr(ctx, "rec_depth", 0) + (1 if tgt == sub.root_tgt else 0)
     a = fn.args
     names = [x.arg for x in a.posonlyargs + a.args]
     cenv = {}
@@ -1333,10 +1347,19 @@ def inline_repo(ctx, tgt, fn, args, kws, star_kw, env):
         cenv[n] = v
     if a.vararg:
         cenv[a.vararg.arg] = ("tuple",) + tuple(pos[len(names):])
+    extra_kw = []
     for k, v in kws.items():
-        cenv[k] = v
+        if a.kwarg and k not in names and k not in [x.arg for x in a.kwonlyargs]:
+            extra_kw.append((("str", k), v))
+        else:
+            cenv[k] = v
     if a.kwarg:
-        cenv[a.kwarg.arg] = star_kw[0] if star_kw else ("dict", ())
+        if star_kw and star_kw[0][0] == "dict":
+            cenv[a.kwarg.arg] = ("dict", tuple(sorted(tuple(star_kw[0][1]) + tuple(extra_kw), key=lambda kv: repr(kv[0]))))
+        elif star_kw and not extra_kw:
+            cenv[a.kwarg.arg] = star_kw[0]
+        else:
+            cenv[a.kwarg.arg] = ("dict", tuple(sorted(extra_kw, key=lambda kv: repr(kv[0]))))
     for n in names:
         cenv.setdefault(n, T.sym(n))
     for k, v in (env or {}).items():
